@@ -93,6 +93,9 @@ func withBase(w *Work) func() {
 		}
 		t.Delete("tq1")
 		t.Delete("tq3")
+		cell := reflect.New(reflect.TypeOf(int64(0))).Elem()
+		cell.SetInt(7)
+		t.DefineValue("taddr", cell)
 		sharedTemplate = t
 		return func() { sharedTemplate = nil }
 	}
@@ -277,6 +280,16 @@ var templates = []func(u string) string{
 	func(u string) string {
 		// the nil a function returns after it caught an error is an ordinary value of this run
 		return "func cf" + u + "() { try { nosuch" + u + " } catch ce" + u + " { } }\ncv" + u + " = cf" + u + "()\nrec(cv" + u + ")\ncp" + u + " = &cv" + u + "\n*cp" + u + " = base\nrec(cv" + u + ")\ntry { nosuch" + u + " } catch cg" + u + " { }\nrec(cf" + u + "())"
+	},
+	func(u string) string {
+		// the address of a value that is no variable (what a function without a result returns, a missing map entry): a
+		// pointer to a value of this expression's own - writing through it changes nothing else
+		return "func nf" + u + "() { }\nnp" + u + " = &nf" + u + "()\n*np" + u + " = base\nrec(*np" + u + ")\nrec(nf" + u + "())\nfunc ng" + u + "() { return }\nnq" + u + " = &ng" + u + "()\n*nq" + u + " = base + 1\nrec(ng" + u + "())\nnm" + u + " = {}\nnr" + u + " = &nm" + u + "[\"k\"]\n*nr" + u + " = base + 2\nrec(nm" + u + "[\"k\"])\nrec(nil)\nrec(hnil)"
+	},
+	func(u string) string {
+		// a variable the host bound by ADDRESS (an addressable value): every environment - a fresh one, a copy of a
+		// prepared template - has a cell of its own behind the name
+		return "rec(taddr)\ntp" + u + " = &taddr\n*tp" + u + " = base + 3\nrec(taddr)\nrec(*tp" + u + ")"
 	},
 	func(u string) string {
 		// the same through a failed MEMBER lookup of a module
@@ -593,6 +606,11 @@ func mkEnv(i int, out *runOut, mu *sync.Mutex) *env.Env {
 	} else {
 		e = env.NewEnv()
 		vm.Run(e, nil, baseLib())
+	}
+	if sharedTemplate == nil {
+		cell := reflect.New(reflect.TypeOf(int64(0))).Elem()
+		cell.SetInt(7)
+		e.DefineValue("taddr", cell)
 	}
 	core.Import(e)
 	e.Define("base", int64(10*(i+1)))
